@@ -348,6 +348,26 @@ def rule_markerstate(ctx):
                 for n, a in place_fields(s2[1]):
                     if a == RECON_ADT and n in MARKER_STATE:
                         writers.setdefault(n, set()).add(g.path)
+                # `let t = if ac { &mut self.ac_tables } else { &mut self.dc_tables }; t[i] = ..`: a mutable borrow of the field
+                # that is written through in the same function arms it as well
+                if s2[2][0] == "ref" and s2[2][1] not in ("shared", "fake") and len(s2[1]) == 1:
+                    for n, a in place_fields(s2[2][2]):
+                        if a == RECON_ADT and n in MARKER_STATE:
+                            from ..mirutil import alias_closure
+                            refs = set(alias_closure(g, {s2[1][0]}, through_fields=False))
+                            grew = True
+                            while grew:      # reborrows: `t = &mut *r`
+                                grew = False
+                                for blk3 in g.blocks:
+                                    for s3 in blk3[0]:
+                                        if s3[0] == "=" and s3[2][0] == "ref" and len(s3[1]) == 1 and s3[1][0] not in refs \
+                                                and s3[2][2][0] in refs and s3[2][2][1:] == ["*"]:
+                                            refs |= set(alias_closure(g, {s3[1][0]}, through_fields=False))
+                                            grew = True
+                            written = any(s3[0] == "=" and s3[1][0] in refs and len(s3[1]) > 1 and "*" in s3[1][1:2]
+                                          for blk3 in g.blocks if not blk3[2] for s3 in blk3[0])
+                            if written:
+                                writers.setdefault(n, set()).add(g.path)
     for fld, marker in MARKER_STATE.items():
         w = writers.get(fld, set())
         outside = sorted(x for x in w if not x.endswith("::process_next"))
